@@ -4,6 +4,7 @@
  * usage: drv_lock <tracebase> <mutex|spin|rw> <nthreads> <nobj> <episodes> <ops> <seed> */
 #include <plibsys.h>
 #include <sched.h>
+#include <time.h>
 #include "vtmt.h"
 
 static const char *base, *kind; static int nth, nobj, episodes, ops, fresh; static unsigned seed;
@@ -64,6 +65,32 @@ static void *actor (void *arg) {
 	vtm_close ();
 	return NULL;
 }
+/* "trylock never blocks": thread 16 holds object 1 and keeps holding it until thread 15's trylock calls have returned; if they have not
+ * returned after 3 s although the lock was held all the time, the trylock is blocked (TryBlocked event - no spec action explains it) */
+static volatile int th_flag;
+static double now_s (void) { struct timespec ts; clock_gettime (CLOCK_MONOTONIC, &ts); return ts.tv_sec + ts.tv_nsec * 1e-9; }
+static void *try_helper (void *arg) {
+	(void) arg;
+	vtm_open (base, 15);
+	while (__atomic_load_n (&th_flag, __ATOMIC_SEQ_CST) < 1) sched_yield ();
+	if (kind[0] == 'r') { if (do_call (15, 1, "rtry")) do_call (15, 1, "runlock"); }
+	if (do_call (15, 1, "wtry")) do_call (15, 1, "wunlock");
+	__atomic_store_n (&th_flag, 2, __ATOMIC_SEQ_CST);
+	vtm_close ();
+	return NULL;
+}
+static void tryhold (void) {
+	pthread_t h; double t0;
+	th_flag = 0;
+	pthread_create (&h, NULL, try_helper, NULL);
+	do_call (16, 1, "wlock");
+	__atomic_store_n (&th_flag, 1, __ATOMIC_SEQ_CST);
+	t0 = now_s ();
+	while (__atomic_load_n (&th_flag, __ATOMIC_SEQ_CST) < 2 && now_s () - t0 < 3.0) sched_yield ();
+	if (__atomic_load_n (&th_flag, __ATOMIC_SEQ_CST) < 2) VTM ("\"e\":\"TryBlocked\",\"t\":15,\"o\":1");
+	do_call (16, 1, "wunlock");
+	pthread_join (h, NULL);
+}
 int main (int argc, char **argv) {
 	int i, ep; pthread_t th[32];
 	if (argc < 8) return 2;
@@ -91,8 +118,9 @@ int main (int argc, char **argv) {
 		vtm_barrier ();
 		vtm_barrier ();
 	}
-	VTM ("\"e\":\"Epoch\"");
 	for (i = 1; i <= nth; i++) pthread_join (th[i], NULL);
+	if (nth <= 14) tryhold ();
+	VTM ("\"e\":\"Epoch\"");
 	for (i = 1; i <= nobj; i++) { if (mx[i]) p_mutex_free (mx[i]); if (sp[i]) p_spinlock_free (sp[i]); if (rw[i]) p_rwlock_free (rw[i]); }
 	vtm_close ();
 	p_libsys_shutdown ();
